@@ -162,28 +162,112 @@ def build_core(prop, cfg, variant, scratch, log):
 
 
 def build_module(prop, cfg, variant, scratch, log):
-    """Harness module under /verif/harness/<mod> with replace directives to the working tree,
-    or an in-module overlay for nested modules (s3/gcs)."""
+    """In-module overlay build for a nested module of the repository (vgirpc/s3, gcs, otel).
+
+    The nested modules depend on the PUBLISHED core module; nothing in /repo is written:
+      * the module's own *_test.go are blanked, the harness *_test.go (package of the module,
+        build tag verif) are added through -overlay;
+      * engine (venum, vsched) and, with variant["shim_time"], shim/vtime are copied to scratch with
+        their core import prefix rewritten to "<module path>/internal/verif/" and mapped as virtual
+        packages below <moddir>/internal/verif/;
+      * with variant["shim_time"] the module's sources go through the rewriter in `-mode time`, so
+        the module's `time` import is the virtual clock (computed from the CURRENT file contents);
+      * go.mod/go.sum are never overlaid or touched: a copy in scratch is passed with -modfile (so
+        -mod=mod may update the copy); with variant["core_replace"] that copy additionally gets
+        `replace <core> => <REPO>` (the working-tree core is what gets dispatched) and go.sum is the
+        union of <REPO>/go.sum and the module's; variant["extra_requires"] names modules whose
+        version is taken from <REPO>/go.mod (test-only helpers such as the otel SDK).
+    """
+    import re
     moddir = os.path.join(REPO, variant["moddir"])          # e.g. /repo/vgirpc/s3
     hdir = os.path.join(VERIF, "harness", variant["harness"])
+    with open(os.path.join(moddir, "go.mod")) as f:
+        gomod_txt = f.read()
+    mm = re.search(r"^module\s+(\S+)", gomod_txt, re.M)
+    if not mm:
+        print(f"BUILD-FAILED no module line in {moddir}/go.mod", flush=True)
+        return None
+    modpath = mm.group(1)
+    core_prefix = MODPATH + "/vgirpc/internal/verif/"
+    mod_prefix = modpath + "/internal/verif/"
     rep = {}
     for f in os.listdir(moddir):
         if f.endswith("_test.go"):
             rep[os.path.join(moddir, f)] = ""
-    hfiles = sorted(glob.glob(os.path.join(hdir, "*_test.go")))
+    if cfg.get("files"):
+        hfiles = [os.path.join(hdir, f) for f in cfg["files"]]
+    else:
+        hfiles = sorted(glob.glob(os.path.join(hdir, "*_test.go")))
     for f in hfiles:
         rep[os.path.join(moddir, os.path.basename(f))] = f
-    rep.update(engine_overlay(moddir))
-    extra_inputs = []
-    if variant.get("gomod"):
-        # replace go.mod/go.sum by harness-provided ones (adds replace directives to the working tree)
-        rep[os.path.join(moddir, "go.mod")] = os.path.join(hdir, "go.mod")
-        rep[os.path.join(moddir, "go.sum")] = os.path.join(hdir, "go.sum")
-        extra_inputs += [os.path.join(hdir, "go.mod"), os.path.join(hdir, "go.sum")]
-    inputs = list_go(moddir) + [os.path.join(moddir, "go.mod"), os.path.join(moddir, "go.sum")] + hfiles + extra_inputs
-    inputs += list_go(os.path.join(REPO, "vgirpc"))
-    inputs += list_go(os.path.join(VERIF, "engine"), recursive=True)
-    key = sha(inputs)
+    inputs = list_go(moddir) + [os.path.join(moddir, "go.mod"), os.path.join(moddir, "go.sum")] + hfiles
+
+    # virtual packages: copies with the import prefix of this module
+    vpk = [("venum", os.path.join(VERIF, "engine", "venum")), ("vsched", os.path.join(VERIF, "engine", "vsched"))]
+    if variant.get("shim_time"):
+        vpk.append(("shim/vtime", os.path.join(VERIF, "shim", "vtime")))
+    for rel, d in vpk:
+        cdir = os.path.join(scratch, "verifpkg", rel)
+        os.makedirs(cdir, exist_ok=True)
+        for f in sorted(os.listdir(d)):
+            if not f.endswith(".go"):
+                continue
+            with open(os.path.join(d, f)) as fh:
+                txt = fh.read()
+            with open(os.path.join(cdir, f), "w") as fh:
+                fh.write(txt.replace(core_prefix, mod_prefix))
+            rep[os.path.join(moddir, "internal", "verif", rel, f)] = os.path.join(cdir, f)
+            inputs.append(os.path.join(d, f))
+
+    if variant.get("shim_time"):
+        rw = os.path.join(VERIF, ".cache", "bin", "rewrite")
+        if not os.path.exists(rw):
+            r = subprocess.run([sys.executable, os.path.join(VERIF, "tools", "setup.py"), "--rewriter-only"],
+                               stdout=log, stderr=log)
+            if r.returncode != 0 or not os.path.exists(rw):
+                print("BUILD-FAILED rewriter", flush=True)
+                return None
+        outdir = os.path.join(scratch, "rewritten")
+        os.makedirs(outdir, exist_ok=True)
+        r = subprocess.run([rw, "-src", moddir, "-out", outdir, "-shim", mod_prefix + "shim", "-mode", "time"],
+                           stdout=log, stderr=log, env=goenv())
+        if r.returncode != 0:
+            print("BUILD-FAILED rewrite (see log)", flush=True)
+            return None
+        for f in os.listdir(outdir):
+            if f.endswith(".go"):
+                rep[os.path.join(moddir, f)] = os.path.join(outdir, f)
+        inputs.append(rw)
+
+    # private go.mod/go.sum copy (-modfile): /repo is never written, not even its go.sum
+    mdir = os.path.join(scratch, "modfile")
+    os.makedirs(mdir, exist_ok=True)
+    sums = []
+    with open(os.path.join(moddir, "go.sum")) as f:
+        sums += f.read().splitlines()
+    if variant.get("core_replace"):
+        with open(os.path.join(REPO, "go.mod")) as f:
+            core_gomod = f.read()
+        with open(os.path.join(REPO, "go.sum")) as f:
+            sums += f.read().splitlines()
+        extra = []
+        for m in variant.get("extra_requires", []):
+            if re.search(r"^\s*(require\s+)?" + re.escape(m) + r"\s+v", gomod_txt, re.M):
+                continue
+            vm = re.search(r"^\s*(?:require\s+)?" + re.escape(m) + r"\s+(v\S+)", core_gomod, re.M)
+            if not vm:
+                print(f"BUILD-FAILED {m} is not required by {REPO}/go.mod (needed by the harness)", flush=True)
+                return None
+            extra.append(f"require {m} {vm.group(1)}")
+        gomod_txt = gomod_txt.rstrip("\n") + "\n\n" + "\n".join(extra) + f"\n\nreplace {MODPATH} => {REPO}\n"
+        inputs += [os.path.join(REPO, "go.mod"), os.path.join(REPO, "go.sum")]
+        inputs += list_go(os.path.join(REPO, "vgirpc"))
+    with open(os.path.join(mdir, "go.mod"), "w") as f:
+        f.write(gomod_txt)
+    with open(os.path.join(mdir, "go.sum"), "w") as f:
+        f.write("\n".join(sorted(set(s for s in sums if s.strip()))) + "\n")
+
+    key = sha(inputs) + "-" + hashlib.sha256((REPO + "|" + json.dumps(variant, sort_keys=True)).encode()).hexdigest()[:8]
     cache = os.path.join(VERIF, ".cache", "testbin")
     os.makedirs(cache, exist_ok=True)
     binpath = os.path.join(cache, f"{prop}-{key}.test")
@@ -197,9 +281,11 @@ def build_module(prop, cfg, variant, scratch, log):
     ov = os.path.join(scratch, "overlay.json")
     with open(ov, "w") as f:
         json.dump({"Replace": rep}, f)
-    cmd = ["go", "test", "-c", "-overlay", ov, "-vet=off", "-tags", "verif", "-o", binpath, "."]
+    cmd = ["go", "test", "-c", "-modfile", os.path.join(mdir, "go.mod"), "-overlay", ov, "-vet=off",
+           "-tags", "verif", "-o", binpath, "."]
+    t0 = time.time()
     r = subprocess.run(cmd, cwd=moddir, env=goenv(), stdout=subprocess.PIPE, stderr=subprocess.STDOUT, text=True)
-    log.write(f"$ (cd {moddir}) {' '.join(cmd)}\n{r.stdout}\n[rc={r.returncode}]\n")
+    log.write(f"$ (cd {moddir}) {' '.join(cmd)}\n{r.stdout}\n[build {time.time()-t0:.1f}s rc={r.returncode}]\n")
     log.flush()
     if r.returncode != 0:
         print("BUILD-FAILED (harness does not compile against the current tree)")
